@@ -342,7 +342,13 @@ func Main(t *testing.T, engine string, f RunFunc) {
 				vr.Count++
 				continue
 			}
-			rp := shrinkAndWrite(t, engine, f, env, seed, run, tp.Consumed(), v, shrinkBudget, replayDir)
+			// the n-th distinct violation of a worker gets half the minimisation budget of the one
+			// before (at least 5 s), so that a badly broken tree cannot keep a worker busy for long
+			budget := shrinkBudget >> uint(min(len(bySig), 6))
+			if budget < 5*time.Second {
+				budget = 5 * time.Second
+			}
+			rp := shrinkAndWrite(t, engine, f, env, seed, run, tp.Consumed(), v, budget, replayDir)
 			bySig[v.Sig] = &ViolationReport{Sig: v.Sig, Oracle: v.Oracle, Msg: v.Msg, Run: run, Replay: rp, Count: 1}
 		}
 	}
